@@ -62,11 +62,29 @@ def run_one(d, prop, name, tier, seed, timeout):
     env = dict(os.environ)
     env.update({"VERIF_REPO": repo, "VERIF_SEED": str(seed)})
     t0 = time.time()
+    # the property's own check first; a change whose trigger lies in another check's territory (e.g. it needs an
+    # export/import, which only the C19 monitor performs) names that check in meta.json "also_check"
+    checks_to_run = [prop]
     try:
-        p = sh([os.path.join(v, "check"), prop, tier], env=env, timeout=timeout, cwd=v)
-        out, rc = p.stdout, p.returncode
-    except subprocess.TimeoutExpired as e:
-        out, rc = (e.stdout or "") if isinstance(e.stdout, str) else "", "timeout"
+        with open(os.path.join(sdir, "meta.json")) as fh:
+            checks_to_run += [c for c in json.load(fh).get("also_check", []) if c != prop]
+    except Exception:
+        pass
+    out, rc = "", 0
+    for cid in checks_to_run:
+        try:
+            p = sh([os.path.join(v, "check"), cid, tier], env=env, timeout=timeout, cwd=v)
+            o, r = p.stdout, p.returncode
+        except subprocess.TimeoutExpired as e:
+            o, r = (e.stdout or "") if isinstance(e.stdout, str) else "", "timeout"
+        out += o
+        if r == 1 and ("VIOLATION property=%s" % cid) in o:
+            out = out.replace("VIOLATION property=%s" % cid, "VIOLATION property=%s" % prop) if cid != prop else out
+            rc = 1
+            res["detected_by_check"] = cid
+            break
+        if rc == 0:
+            rc = r
     res["wall_s"] = round(time.time() - t0, 1)
     res["exit"] = rc
     checks = sorted(set(re.findall(r"^\s+check=(\S+)", out, re.M)))
